@@ -131,7 +131,7 @@ WRelease(i) == /\ wpc[i] = "done" /\ cfg.mode = "peach" /\ cfg.bound # 0
                /\ sem' = sem - 1                               \* Release(1), whether or not a permit is held
                /\ wpc' = [wpc EXCEPT ![i] = "released"]
                /\ UNCHANGED <<cfg, fpc, cur, permit, pos, ended, nstart, broken, errs, cancelled, out, ret>>
-Cancel == /\ MayCancel /\ ~cancelled /\ fpc # "returned" /\ cancelled' = TRUE
+Cancel == /\ MayCancel /\ ~cancelled /\ cancelled' = TRUE
           /\ UNCHANGED <<cfg, fpc, cur, permit, sem, wpc, pos, ended, nstart, broken, errs, out, ret>>
 
 Internal == FTest \/ FAcquireOK \/ FAcquireCancelled \/ FSpawnAsIs \/ FRetest \/ ProceedWithoutPermit
